@@ -162,6 +162,10 @@ def _free_names(w, axis_objs, extra=()):
     return [d for d in V.DIM_NAMES + NEWDIMS if d not in taken]
 
 
+def free_tail(w, axis_objs):
+    return _free_names(w, axis_objs)
+
+
 @defop("rename", "rename", kind="inplace", weight=1.5)
 def _rename():
     def gen(w, rng):
@@ -178,7 +182,17 @@ def _rename():
             if rng.random() < 0.06:
                 return {"a": a_id, "how": how, "axis": ref, "old": nm, "new": rng.choice(["", 7])}    # must be refused
             return {"a": a_id, "how": how, "axis": ref, "old": nm, "new": rng.choice(free)}
-        free = _free_names(w, list(list.__iter__(a._axes)))
+        own = list(list.__iter__(a._axes))
+        if a.ndim >= 2 and rng.random() < 0.3 and all("," not in d for d in a.dims) and all(w.n_holders(ax) == 1 for ax in own):
+            # the current names in another order (a swap or a cyclic shift): every name stays in use but moves to another axis, so
+            # anything remembered per name is stale; only for arrays that share no axis, so that no alias ends up with equal names
+            new = list(a.dims)
+            k = rng.randrange(1, len(new))
+            new = new[k:] + new[:k]
+            if rng.random() < 0.5 and free_tail(w, own):
+                new[rng.randrange(len(new))] = rng.choice(free_tail(w, own))     # a shift: one old name goes, a fresh one comes
+            return {"a": a_id, "how": "dims", "new": new}
+        free = _free_names(w, own)
         new = []
         for d in a.dims:
             if rng.random() < 0.5 and free:
